@@ -365,6 +365,13 @@ func c09RunWord(c *vx.Ctx, p *vx.Part, word string, shares bool) ([][2]string, s
 
 func runC09(c *vx.Ctx) {
 	core.VScaleParams(core.VR1)
+	c09ScaleDifficulty()
+	if c.Wants("forks") {
+		c09Forks(c)
+	}
+	if !c.Wants("header-rules") {
+		return
+	}
 	c.Rule = "tree of all block-order words over {z,r,p} up to depth D on a real prime/region/zone node; at every node every single-field deviation (31 fields of Header / WorkObjectHeader) of the freshly built child is re-hashed, re-sealed and offered to VerifyHeader of each chain the block belongs to; outcome class = chain x field x rejection reason"
 	c.Assume("scaled protocol constants: " + fmt.Sprint(core.VScaled))
 	c.Assume("injected PoW engine: deviations are re-sealed with a valid pow hash, so rejections come from the header rules, not from the seal")
@@ -419,7 +426,25 @@ func runC09(c *vx.Ctx) {
 
 func replayC09(c *vx.Ctx, v vx.Violation) string {
 	core.VScaleParams(core.VR1)
+	c09ScaleDifficulty()
 	raw, _ := jsonMarshal(v.Replay)
+	if v.Part == "forks" {
+		var f struct {
+			Forks c09ForkCase `json:"forks"`
+		}
+		if err := jsonUnmarshal(raw, &f); err != nil {
+			return "bad replay: " + err.Error()
+		}
+		prefix, err := c09ForkPrefixBlocks()
+		if err != nil {
+			return "harness: " + err.Error()
+		}
+		_, d, h, _ := c09ForkCaseRun(prefix, f.Forks)
+		if h != "" {
+			return "harness: " + h
+		}
+		return d
+	}
 	var cs map[string]string
 	if err := jsonUnmarshal(raw, &cs); err != nil {
 		return "bad replay: " + err.Error()
